@@ -455,8 +455,27 @@ def run(ck, facts):
                         okt = okt or (a0.get("k") == "local" and a0.get("id") in cparams and chain_has_lifetimes(mc["recv"]) and from_param(a1, borrow_param) and not from_param(a0, borrow_param))
         ck.expect(okt, "R3", "extend_implicit_lifetime_bounds/pair-order", "(a lifetime of the named type, Some(the borrow's lifetime))", "the implied bound for &'a T<'b> is not recorded as 'b: 'a (type lifetime longer than the borrow)", C.loc(ei))
     ln = core.fn("hir::lowering::LoweringContext::lower_named_lifetime")
+    def ctor_field_sources(fn_, adt_sfx, fld):
+        """like flow.struct_field_sources, for a value built through a constructor function `T::new(a, b, c)` whose body is `T { f: a, .. }`"""
+        out = []
+        defs_ = flow.defs_of(fn_)
+        for x in C.walk(C.fn_body(fn_)):
+            if x.get("k") != "call":
+                continue
+            cal = core.norm.get(C.norm_path(x.get("p") or C.callee(x) or ""))
+            if not cal or "hir" not in cal:
+                continue
+            lit = next((y for y in C.walk(C.fn_body(cal)) if y.get("k") == "struct" and (y.get("adt") or "").endswith(adt_sfx)), None)
+            if lit is None:
+                continue
+            ps_ = [p_.get("id") for p_ in cal["hir"].get("params") or [] if isinstance(p_, dict)]
+            for fl_ in lit.get("fields") or []:
+                e_ = C.strip(fl_["e"])
+                if fl_["n"] == fld and e_.get("k") == "local" and e_.get("id") in ps_ and ps_.index(e_["id"]) < len(x.get("a") or []):
+                    out.append((x, flow.trace(x["a"][ps_.index(e_["id"])], defs_)))
+        return out
     for fld in ("longer", "shorter"):
-        res = flow.struct_field_sources(ln, "BoundedLifetime", fld)
+        res = flow.struct_field_sources(ln, "BoundedLifetime", fld) or ctor_field_sources(ln, "BoundedLifetime", fld)
         ok = bool(res) and all({l[1] for l in leaves if l[0] == "field" and l[1] in ("longer", "shorter")} == {fld} for _, leaves in res)
         ck.expect(ok, "R3", "lower_named_lifetime/" + fld, "%s <- %s" % (fld, fld), "HIR BoundedLifetime.%s is not copied from the AST node's `%s` list" % (fld, fld), C.loc(ln))
     # the selector value all_longer_lifetimes / all_shorter_lifetimes hand to the transitive iterator is the one under which the iterator
